@@ -249,3 +249,7 @@ def r7d(prog, rep):
                           detail='the index stored for a header and the index used to fetch a record cell are not both the plain enumerate() position')
     else:
         rep.violation('R7d', 'anchor-lost:column-index-map', fn=p.name, detail='anchor lost: column index -> name map in parse_tx_csv')
+
+
+def fixture():
+    return c18.fixture()
